@@ -173,3 +173,7 @@ package parse
 //@   requires C16_supported_key_and_value_kinds: capType(keyType) != nil && capType(valType) != nil && isBasicKind(kind(capType(keyType))) && kind(capType(keyType)) != Uintptr
 //@        && isBasicKind(kind(capType(valType))) && kind(capType(valType)) != Uintptr
 //@   modifies rh, rec_parseString, rec_parseNumber
+//@   at call m.SetMapIndex(:
+//@     assert C11_C15_only_a_parsed_key_and_a_parsed_value_are_stored: rec_parseString_cnt == old(rec_parseString_cnt) + 2
+//@          && rec_parseString_res1[old(rec_parseString_cnt)] == nil && rec_parseString_res1[old(rec_parseString_cnt) + 1] == nil
+//@          && rec_parseString_arg0[old(rec_parseString_cnt) + 1] == newValStr
